@@ -109,6 +109,28 @@ def seqCopyNew {α} [Inhabited α] (parent : List α) (v : View) : Except Err (L
       | .error e => .error e
       | .ok v'' => .ok (p', v'')
 
+/-- CURRENT new `SeqView.copy(sliced=True)` (after repo commit f9c946a7e): the constructor is
+called on the truncated parent with `step` only — `offset` is NOT passed (defaults to 0), the
+enclosing `Sequence` re-attaches `annotation_offset`. -/
+def viewCopyNewRepaired {α} [Inhabited α] (parent : List α) (v : View) : Except Err (List α × View) :=
+  let r := toRich parent v
+  match mk r.seq.length none none (some v.step) 0 with
+  | .ok v' => .ok (r.seq, v')
+  | .error e => .error e
+
+/-- CURRENT new `Sequence.copy(sliced=True)`: `offset = self.annotation_offset` (parent_start),
+`data = self._seq.copy(sliced=True)` (`viewCopyNewRepaired`), then the constructor coerces. -/
+def seqCopyNewRepaired {α} [Inhabited α] (parent : List α) (v : View) : Except Err (List α × View) :=
+  match parentStart v with
+  | .error e => .error e
+  | .ok ps =>
+    match viewCopyNewRepaired parent v with
+    | .error e => .error e
+    | .ok (p', v') =>
+      match coerceOffset v' ps with
+      | .error e => .error e
+      | .ok v'' => .ok (p', v'')
+
 /-- `SeqDataView.to_rich_dict`: `self.str_value[lo:hi]` — the string that is
 sliced is the already realised one (`str_value` = `raw[ps:pe][::step]`), and the
 bounds are the parent bounds. `init_args["offset"] = parent_start`. -/
@@ -252,5 +274,33 @@ def BuiltFeatureMap.roundtripJson (b : BuiltFeatureMap) : BuiltFeatureMap :=
 /-- pickle of the built object: every span is re-initialised from its live state -/
 def FeatureState.roundtripPickle (s : FeatureState) : FeatureState :=
   FeatureMap.build { spans := s.spans.map SpanState.pickleArgs, parentLength := s.parentLength }
+
+/-- CURRENT `Span.to_rich_dict` / `_LostSpan.to_rich_dict` (after repo commit 0de96f35a): the
+recorded constructor arguments are OVERWRITTEN with the live state (`start`, `end`, `tidy_start`,
+`tidy_end`, `reverse`; `length` for a lost span), so the exported arguments are those of
+`__getstate__`. -/
+def SpanState.richArgs : SpanState → SpanArgs
+  | .span s e ts te r => .span s (some e) ts te r
+  | .lost l => .lost l
+
+/-- CURRENT `FeatureMap.to_rich_dict`: `[s.to_rich_dict() for s in self.spans]` + live `parent_length`. -/
+def FeatureState.toRichLive (s : FeatureState) : FeatureMap :=
+  { spans := s.spans.map SpanState.richArgs, parentLength := s.parentLength }
+
+/-- CURRENT JSON route: `FeatureMap.from_rich_dict(to_rich_dict())` re-runs the span constructors
+on the live values and `__post_init__` recomputes `length`. -/
+def FeatureState.roundtripJsonLive (s : FeatureState) : FeatureState :=
+  FeatureMap.build s.toRichLive
+
+/-- well-formed live span: `Span.__init__` leaves `start ≤ end` (asserted: `length >= 0`). -/
+def SpanState.WF : SpanState → Prop
+  | .span s e _ _ _ => s ≤ e
+  | .lost _ => True
+
+/-- well-formed live map state: every span well-formed and `length` is the sum of span lengths
+(what `__post_init__` computes). Holds after the constructor and is kept by in-place span
+edits such as `zeroed()` that shift `start`/`end` together. -/
+def FeatureState.WF (s : FeatureState) : Prop :=
+  (∀ x ∈ s.spans, x.WF) ∧ s.length = (s.spans.map SpanState.length).foldl (· + ·) 0
 
 end CogentModel.RichDict
